@@ -251,7 +251,10 @@ impl<'a> ScopeCheck<'a> {
     /// Returns Ok(use_bounds after the segment) or Err(description).
     /// `entry_is_e`: at type scope the per-trait/common levels are the derive entry itself (always present).
     /// `stop_after`: for comparison fields, the helper after which lower helpers are skipped (by/key selected there).
-    pub fn segment(&self, scope: Scope, pushes: &[(String, bool)], use_in: Option<bool>, with_helpers: bool, stop_after: Option<&str>) -> Result<(Option<bool>, usize), String> {
+    pub fn segment(&self, scope: Scope, pushes: &[(String, bool)], use_in: Option<bool>, with_helpers: bool, stop_after: Option<&str>) -> Result<(Option<bool>, usize), String> { self.segment_of(scope, "", pushes, use_in, with_helpers, stop_after) }
+    /// `elem`: prefix of the variant / field element the segment belongs to ("" at type scope): optional levels
+    /// (`#[default(..)]`, the element's own derive_ex entry) are optional only when the path says they are absent
+    pub fn segment_of(&self, scope: Scope, elem: &str, pushes: &[(String, bool)], use_in: Option<bool>, with_helpers: bool, stop_after: Option<&str>) -> Result<(Option<bool>, usize), String> {
         let mut i = 0;
         let mut use_b = use_in;
         let explicit: Vec<&(String, bool)> = pushes.iter().filter(|p| !p.1).collect();
@@ -279,13 +282,14 @@ impl<'a> ScopeCheck<'a> {
             for h in helpers_of(self.doc, &self.kind) {
                 if stopped { break; }
                 // `#[default]` is optional: absent means the level does not exist
-                let optional = h == "default";
+                let optional = h == "default" && self.cl.atom(self.cond, elem, "HelperAttributes", "default") != Some(true);
                 expect(Level::Helper(h.clone()), &mut i, &mut use_b, optional)?;
                 if stop_after == Some(h.as_str()) { stopped = true; }
             }
         }
         // per-trait then shared level: the entry may be absent below type scope (optional as a pair)
-        let consumed_this = expect(Level::EntryThis, &mut i, &mut use_b, scope != Scope::Type)?;
+        let entry_present = scope != Scope::Type && self.cl.atom(self.cond, elem, "HelperAttributes", "items") == Some(true);
+        let consumed_this = expect(Level::EntryThis, &mut i, &mut use_b, scope != Scope::Type && !entry_present)?;
         if consumed_this || scope == Scope::Type { expect(Level::EntryCommon, &mut i, &mut use_b, false)?; }
         if i != explicit.len() {
             return Err(format!("unexpected extra push {:?} at {scope:?} scope", explicit[i].0));
